@@ -94,6 +94,11 @@ class M1(State):
     b: str = "b"
 
 
+class M1N(State):  # the same without a class-level default: a missing argument is stored as MISSING in the instance only
+    a: int | Missing
+    b: str = "b"
+
+
 class M2(State):
     inner: M1 | Missing = MISSING
     items: Sequence[M1] = ()
@@ -121,11 +126,13 @@ def build(s):
     if k == "dc":
         return DC(v=build(s["v"]))
     if k == "m1":
-        return M1() if s["a"] is None else M1(a=s["a"])
+        cls = M1N if s.get("nd") else M1
+        return cls() if s["a"] is None else cls(a=s["a"])
     if k == "m2":
+        # M2's attributes are annotated with M1 itself: the no-class-default variant is only used on its own
         return M2(
-            inner=build(s["inner"]) if s["inner"] is not None else MISSING,
-            items=[build(x) for x in s["items"]],
+            inner=build({**s["inner"], "nd": False}) if s["inner"] is not None else MISSING,
+            items=[build({**x, "nd": False}) for x in s["items"]],
         )
     if k == "m3":
         return M3(payload=build(s["payload"]))
@@ -179,7 +186,7 @@ def twin(s):
     if k == "dc":
         return {"k": "dc", "v": twin(s["v"])}
     if k == "m1":
-        return {"k": "m1", "a": 0 if s["a"] is None else s["a"]}
+        return {"k": "m1", "a": 0 if s["a"] is None else s["a"], "nd": s.get("nd", False)}
     if k == "m2":
         return {
             "k": "m2",
@@ -199,6 +206,9 @@ def apply(op, x):
     return pickle.loads(pickle.dumps(x, int(op[6:])))
 
 
+_ABSENT = object()
+
+
 def compare(out: Outcome, path, a, b, opname):
     """a: before, b: after. Every MISSING position must be the identical object afterwards."""
     if a is MISSING:
@@ -214,7 +224,11 @@ def compare(out: Outcome, path, a, b, opname):
             out.violate("state", f"C20.state/{opname.rstrip('012345')}/class-changed", f"{path}: {type(b)}")
             return
         for name in type(a).__ATTRIBUTES__:
-            compare(out, f"{path}.{name}", getattr(a, name, MISSING), getattr(b, name, MISSING), opname)
+            got = getattr(b, name, _ABSENT)
+            if got is _ABSENT and getattr(a, name, _ABSENT) is not _ABSENT:
+                out.violate("state", f"C20.state/{opname.rstrip('012345')}/attribute-lost", f"{path}.{name}: the original holds {getattr(a, name)!r}, the result has no such attribute")
+                continue
+            compare(out, f"{path}.{name}", getattr(a, name, MISSING), got, opname)
         try:
             if a.as_dict().keys() != b.as_dict().keys():
                 out.violate("state", f"C20.state/{opname.rstrip('012345')}/as_dict-keys", f"{a.as_dict()} vs {b.as_dict()}")
@@ -382,6 +396,9 @@ def grid_shapes():
         yield from _depth1(leaf)
     yield {"k": "m1", "a": None}
     yield {"k": "m1", "a": 3}
+    yield {"k": "m1", "a": None, "nd": True}
+    yield {"k": "m1", "a": 3, "nd": True}
+    yield {"k": "list", "items": [{"k": "m1", "a": None, "nd": True}]}
     yield {"k": "m2", "inner": None, "items": []}
     yield {"k": "m2", "inner": {"k": "m1", "a": None}, "items": [{"k": "m1", "a": None}, {"k": "m1", "a": 1}]}
     for d1 in list(_depth1({"k": "missing"})) + [{"k": "m1", "a": None}, {"k": "m2", "inner": {"k": "m1", "a": None}, "items": []}]:
@@ -402,9 +419,9 @@ def _shape_strategy():
         st.just({"k": "missing"}),
         st.just({"k": "call"}),
         st.builds(lambda i: {"k": "like", "i": i}, st.integers(0, len(LIKES) - 1)),
-        st.builds(lambda a: {"k": "m1", "a": a}, st.one_of(st.none(), st.integers(-3, 3))),
+        st.builds(lambda a, nd: {"k": "m1", "a": a, "nd": nd}, st.one_of(st.none(), st.integers(-3, 3)), st.booleans()),
     )
-    m1 = st.builds(lambda a: {"k": "m1", "a": a}, st.one_of(st.none(), st.integers(-3, 3)))
+    m1 = st.builds(lambda a, nd: {"k": "m1", "a": a, "nd": nd}, st.one_of(st.none(), st.integers(-3, 3)), st.booleans())
 
     def extend(children):
         return st.one_of(
